@@ -12,9 +12,18 @@ def run(tier):
     ck.model("Repcodes (encoder/decoder repeat-offset histories in lock step)", r, {})
     if r.violated:
         ck.warn("Repcodes.tla: %s violated (specification-level)" % r.invariant_violated)
+    rs = core.run_tlc("Splitter", "Splitter.cfg", tag="c01-split", timeout=900)
+    ck.model("Splitter (match finder / simulated decoder / decoder histories across raw and coded partitions of a split block)", rs, {})
+    if rs.violated:
+        ck.warn("Splitter.tla: %s violated (specification-level)" % rs.invariant_violated)
+    rm = core.run_tlc("Splitter", "Splitter_mutSim.cfg", tag="c01-split-mut", timeout=600)
+    ck.model("Splitter mutation (simulation advanced with the stored code; expected to violate RoundTrip)", rm, {"violated": rm.invariant_violated})
+    if rm.invariant_violated != "RoundTrip":
+        ck.warn("mutation config was not rejected: RoundTrip is vacuous")
     n = 1500 if tier == "quick" else 20000
     cases = [fc.gen_case(ck.rng, tier, "c01") for _ in range(n)]
     cases += [fc.gen_superblock_case(ck.rng, tier) for _ in range(400 if tier == "quick" else 6000)]
+    cases += [fc.gen_splitter_case(ck.rng, tier) for _ in range(60 if tier == "quick" else 1200)]
     fc.run_cases(ck, exe, "c01", cases)
     for c in cases[:4]:
         ck.sample(c)
